@@ -707,6 +707,32 @@ impl World {
                 g = self.rec.lock().unwrap();
                 k
             }
+            "random_pid_canonical" => {
+                // any process (seeded), but within the process the smallest (key, occurrence): the
+                // client-visible history of each process is then the same as in a solo run
+                let mut pids: Vec<String> = g.open.iter().map(|o| o.pid.clone()).collect();
+                pids.sort();
+                pids.dedup();
+                let n = pids.len() as u32;
+                drop(g);
+                let pid = pids[vsim::choose(site::CLIENT, n) as usize].clone();
+                g = self.rec.lock().unwrap();
+                let mut best: Option<usize> = None;
+                for (i, o) in g.open.iter().enumerate() {
+                    if o.pid != pid {
+                        continue;
+                    }
+                    match best {
+                        None => best = Some(i),
+                        Some(b) => {
+                            if (&o.key, o.occ) < (&g.open[b].key, g.open[b].occ) {
+                                best = Some(i);
+                            }
+                        }
+                    }
+                }
+                best.unwrap_or(0)
+            }
             "canonical" => {
                 let mut best = 0;
                 for (i, o) in g.open.iter().enumerate() {
@@ -740,8 +766,32 @@ impl World {
         targets.push(("no_such_pid".into(), "no_such_tid".into()));
         targets.sort();
         targets.dedup();
-        let t = targets[vsim::choose(site::CLIENT, targets.len() as u32) as usize].clone();
+        let mut t = targets[vsim::choose(site::CLIENT, targets.len() as u32) as usize].clone();
         let action = adv.actions[vsim::choose(site::CLIENT, adv.actions.len() as u32) as usize].clone();
+        // half of the time the target is one the action is meaningful for (cancel: an act that is already
+        // closed; push: a running step; the others: an open act), so that multi-step histories such as
+        // complete / skip / cancel are reached, not only rejected calls
+        if vsim::choose(site::CLIENT, 2) == 1 {
+            let mut last: BTreeMap<(String, String), (String, String)> = BTreeMap::new();
+            for tr in self.rec.lock().unwrap().rec.trans.iter() {
+                last.insert((tr.pid.clone(), tr.tid.clone()), (tr.kind.clone(), tr.new.clone()));
+            }
+            // only tasks the client has seen in a message (composite acts never report themselves)
+            let seen = self.rec.lock().unwrap().seen_tids.clone();
+            let fit: Vec<(String, String)> = last
+                .iter()
+                .filter(|(k, _)| seen.contains(*k))
+                .filter(|(_, (kind, st))| match action.as_str() {
+                    "cancel" => kind == "act" && is_terminal_state(st),
+                    "push" => kind == "step" && st == "running",
+                    _ => kind == "act" && !is_terminal_state(st),
+                })
+                .map(|(k, _)| k.clone())
+                .collect();
+            if !fit.is_empty() {
+                t = fit[vsim::choose(site::CLIENT, fit.len() as u32) as usize].clone();
+            }
+        }
         let mut options = Map::new();
         match action.as_str() {
             "error" => {
@@ -860,6 +910,20 @@ pub fn reaction_for(client: &ClientSpec, oa: &OpenAct) -> Reaction {
 pub fn react(engine: &Engine, rec: &Rec, client: &ClientSpec, oa: &OpenAct, at_q: bool) {
     let r = reaction_for(client, oa);
     if r.action == "none" {
+        return;
+    }
+    if r.action == "cancel_prev" {
+        // instead of answering this interrupt: cancel the act this client completed last (an act of an
+        // earlier step), the documented use of `cancel`
+        let prev = rec.lock().unwrap().rec.actions.iter().rev().find(|a| a.ok && a.action == "complete" && a.pid == oa.pid && a.tid != oa.tid).map(|a| (a.tid.clone(), a.key.clone()));
+        match prev {
+            Some((tid, key)) => {
+                do_action(engine, rec, &oa.pid, &tid, "cancel", &r.options, &key, "client", at_q);
+            }
+            None => {
+                do_action(engine, rec, &oa.pid, &oa.tid, "complete", &r.options, &oa.key, "client", at_q);
+            }
+        }
         return;
     }
     for _ in 0..=r.repeat {
